@@ -33,6 +33,9 @@ def _mk(N):
         c.param("b", ("nd", "int"))
         c.requires(f"len(f1.h) == {N}", "kernel-length")
         c.requires("len(a) >= 1 and len(b) >= 1", "non-empty-blocks")
+        # all samples already have the blocks' sample type (casting them is the identity); 0 is a value of every sample type
+        c.requires("forall(0, len(a), lambda i: np_cast(a[i]) == a[i]) and forall(0, len(b), lambda i: np_cast(b[i]) == b[i]) and "
+                   "forall(0, len(f1.x_prev), lambda i: np_cast(f1.x_prev[i]) == f1.x_prev[i]) and np_cast(0) == 0", "one-sample-type")
         c.ensures("len(result[2]) == len(result[0]) + len(result[1])", "same-number-of-outputs")
         c.ensures("forall(0, len(result[0]), lambda i: result[2][i] == result[0][i])", "first-block-outputs-agree")
         c.ensures("forall(0, len(result[1]), lambda i: result[2][len(result[0]) + i] == result[1][i])", "second-block-outputs-agree")
@@ -51,6 +54,7 @@ def _mk(N):
         c.param("x", ("nd", "int"))
         c.requires(f"len(h) == {N} and 0 <= m0 and m0 <= {N} - 1", "delay-offset-in-range")
         c.requires("len(x) >= 1")
+        c.requires("forall(0, len(x), lambda i: np_cast(x[i]) == x[i]) and np_cast(0) == 0", "one-sample-type")
         c.ensures("len(result[0]) + len(result[1]) == len(x)", "as-many-outputs-as-inputs")
         c.ensures(f"len(result[2]) == {N} - 1 - m0 and forall(0, len(result[2]), lambda i: result[2][i] == 0)",
                   "flush-resets-to-the-constructor-state")
@@ -92,7 +96,12 @@ def _build_fir(inputs):
         out += list(f.get_remaining())
         # after the flush the filter behaves like a new one
         again = list(f.process(x)) + list(f.get_remaining())
-        return {"ref": [int(v) for v in ref], "out": [int(v) for v in out], "again": [int(v) for v in again]}
+        # independent reference: the valid convolution of zeros(N-1-m0) ++ x ++ zeros(m0), cast like the input block
+        N = len(h)
+        padded = np.concatenate([np.zeros(N - 1 - inputs["m0"]), x.astype(float), np.zeros(inputs["m0"])])
+        indep = np.convolve(padded, h, "valid").astype(x.dtype) if len(padded) >= N else np.asarray([], dtype=x.dtype)
+        return {"ref": [int(v) for v in ref], "out": [int(v) for v in out], "again": [int(v) for v in again],
+                "indep": [int(v) for v in indep], "ref_types": sorted({type(v).__name__ for v in ref})}
     return {"call": run, "env": {}}
 
 
@@ -104,6 +113,10 @@ def _oracle_fir(inputs, kind, val, env):
         bad.append(f"oracle.block-split-independent(one block {val['ref']}, split {val['out']})")
     if len(val["ref"]) != len(inputs["x"]):
         bad.append(f"oracle.as-many-outputs-as-inputs({len(val['ref'])} for {len(inputs['x'])})")
+    if val["ref"] != val["indep"]:
+        bad.append(f"oracle.equals-the-convolution-of-the-padded-signal(filter {val['ref']}, reference {val['indep']})")
+    if val["ref_types"] not in (["int64"], []):
+        bad.append(f"oracle.output-keeps-the-sample-type({val['ref_types']})")
     if val["again"] != val["ref"]:
         bad.append("oracle.flush-resets-the-filter")
     return bad
